@@ -94,6 +94,9 @@ type atomNamer func(v ssa.Value) string
 
 type predBuilder struct {
 	name atomNamer
+	// nilOf, when set, supplies the formula of "v is nil" for values whose nil-ness has a known
+	// decomposition (the result of a summarised helper call) instead of an opaque isnil(v) atom
+	nilOf func(v ssa.Value) (formula, bool)
 }
 
 func (pb *predBuilder) key(v ssa.Value) string {
@@ -163,7 +166,12 @@ func (pb *predBuilder) valueFormula(v ssa.Value, depth int) formula {
 		switch x.Op {
 		case token.EQL, token.NEQ, token.LSS, token.LEQ, token.GTR, token.GEQ:
 			if nv, nilWhenTrue, ok := nilCheckOf(x); ok {
-				a := fAtom{"isnil(" + pb.key(nv) + ")"}
+				var a formula = fAtom{"isnil(" + pb.key(nv) + ")"}
+				if pb.nilOf != nil {
+					if ex, ok := pb.nilOf(nv); ok {
+						a = ex
+					}
+				}
 				if nilWhenTrue {
 					return a
 				}
